@@ -564,6 +564,12 @@ fn builders_fam(c: &mut Case) {
     scverif::builders::case(c, "C07")
 }
 
+/// the uniform api traits (Predictor / SupervisedEstimator / UnsupervisedEstimator / Transformer) behave
+/// exactly like the inherent methods
+fn api_paths_fam(c: &mut Case) {
+    scverif::apipaths::case(c, "C07")
+}
+
 fn main() {
     runner::main(Spec {
         property: "C07",
@@ -576,6 +582,7 @@ fn main() {
             "predict is checked on the training matrix X (the statement says predict(X))",
         ],
         families: vec![
+            Family::new("api_paths", 300, 3000, api_paths_fam),
             Family::new("builders", 300, 3000, builders_fam),
             Family::new("ols", 4000, 60000, ols),
             Family::new("ridge_norm", 3500, 50000, ridge_norm),
